@@ -130,3 +130,24 @@ PROPS["C06"] = {
     "level_text": "Machine-checked Lean 4 theorems: attemptLoop_le / attempts_le_three (at most three update-check requests per check, by induction on the loop), ucCount_omahaRequest_other and report_single_shot (event reports and pings are one exchange at most and never add update-check requests), retry_iff (a further attempt iff transient failure, attempt < 3, no poll interval in force), never_retried, outcome_classification, giveUp_third, backoff_window and backoff_bases (2^(k-1) s +/- 500 ms), attempts_range / requests_per_check_range (the reported count is the number of attempts, 1..3); tied to state_machine.rs by the per-unit differential run.",
     "level_note": "Trusted: Lean kernel; the hand-written state-machine model; harness and diff. That each attempt has exactly one UpdateCheckResponseTime metric is checked by the correspondence (the model emits it under the same monotonic-clock condition as the code), not stated as a theorem.",
 }
+
+PROPS["C02"] = {
+    "lean_modules": ["Omaha.Props.C02"],
+    "streams": sm_stream([r"E ", r"S ", r"I ", r"H ", r"M (eventlost|reqspercheck|reason|attemptscheck)", [r"P (next|allowed)", ["apps=", "lut=", "poll=", "fails="]], r"Z "]),
+    "rule": SM_RULE + "; with CUP on, each response is authentic or one of six forgeries (unsigned, signed for another body, wrong key, replay of the last genuine ETag, foreign nonce, garbage ETag) at every request position (update-check attempts, each event report, pings), carrying X-Retry-After, update offers, cohorts and error statuses; projection: every event, storage operation, installer call, request, the lost-event / requests-per-check / failure-reason metrics, the state handed to the policy, end-of-unit state",
+    "trusted_extra": SM_TRUSTED + ["whether a response is authentic is decided by the real StandardCupv2Handler in the implementation and given to the model as a flag by the harness that forged or signed it (C01 characterises the handler)"],
+    "assumptions": [],
+    "level_text": "Machine-checked Lean 4 theorems: unauth_no_effect (processing a response that fails authentication changes neither context, apps nor store and emits nothing), unauth_request (the request returns the validation error; the exchange is the only action added), unauth_not_retried + attemptLoop_stops (the check ends at once, no further request), unauth_check_bookkeeping (one failed check, Internal reason, last-contact time / poll interval / apps untouched), report_lost_iff (an undelivered event report is exactly one lost-event metric), ping_failure_counts; the replay case is covered because authenticity is per exchange (nonce) and a replayed ETag is just another unauthentic response; tied to the code by the per-unit differential run with the real CUP handler.",
+    "level_note": "Trusted: Lean kernel; the hand-written state-machine model; harness (incl. its signer/forger) and diff.",
+}
+
+PROPS["C08"] = {
+    "lean_modules": ["Omaha.Props.C08"],
+    "streams": sm_stream([r"E (sched|proto|result)", [r"P (next|allowed)", ["lut=", "lct=", "poll=", "fails="]], r"S (set|remove) (%s|%s|%s)" % (K_LUT, K_POLL, K_FAILS), r"S commit",
+                          [r"Z ", ["lut=", "lct=", "poll=", "fails=", "pend=", "comm="]]]),
+    "rule": SM_RULE + "; every unit starts from the committed + pending storage and the in-memory context the real machine had at that boundary (a mode=start unit is a rebuild on the committed map: the crash/restart case); projection: schedule / protocol / result events, the context handed to the policy, storage operations on the three context keys, commits, end-of-unit context and full storage",
+    "trusted_extra": SM_TRUSTED + ["Storage contract assumed: writes are cached until commit, commit is atomic (the harness storage implements exactly that)"],
+    "assumptions": ["crash consistency is stated for a storage that works (no injected write failures); with failing writes the code logs and continues, which C14 covers"],
+    "level_text": "Machine-checked Lean 4 theorems: finishCheckOk/Err_failures, pingFailed/Succeeded_failures and failures_count (over any history the counter is the number of failures since the last success, saturating), finishCheckOk/Err_lastUpdate + talkedToOmaha_iff + ping lemmas (last-contact moves exactly on success, unparseable body, unusable plan, successful ping), closeCheck_trace (every check ends ScheduleChange, ProtocolStateChange, result, three context writes, one write per app, commit), persist_commit_crash_load (after persist + commit + crash, loadCtx returns exactly the context's durable view at microsecond precision), commit_get / crash_commit_get / committed_only_by_commit / failed_op_changes_nothing (only a successful commit changes what survives a crash); tied to the code by the per-unit differential run incl. rebuilds.",
+    "level_note": "Trusted: Lean kernel; the hand-written state-machine and storage model; harness and diff. The every-prefix form of crash consistency is carried by committed_only_by_commit + persist_commit_crash_load per commit site rather than as one theorem over whole traces.",
+}
